@@ -30,6 +30,7 @@ def Mode.atFront : Mode → Bool
 
 structure Desc (K V : Type) where
   comb   : V → V → V
+  veq    : V → V → Bool      -- the `==` of ContainsValue (float ==: NaN ≠ NaN, +0 = -0; otherwise equality)
   refuse : K → Bool := fun _ => false
   blind  : K → Bool := fun _ => false
 
@@ -143,7 +144,7 @@ def step (d : Desc K V) (s : S K V) : Op K V → S K V × Out K V
     | some v => ({ s with ents := AL.erase s.ents k ++ [(k, v)] }, .val v)
     | none => (s, .none)
   | .containsKey k => (s, .bool (!d.blind k && (AL.get s.ents k).isSome))
-  | .containsValue v => (s, .bool (s.ents.any (fun e => decide (e.2 = v))))
+  | .containsValue v => (s, .bool (s.ents.any (fun e => d.veq e.2 v)))
   | .firstKey => (s, .ofKey (s.ents.head?.map (·.1)))
   | .lastKey => (s, .ofKey (s.ents.getLast?.map (·.1)))
   | .firstValue => (s, .ofVal (s.ents.head?.map (·.2)))
